@@ -36,6 +36,9 @@ STORE_VALUES = {
     "fit param E value": {"fe_a": 50.0, "fe_b": 1234.5},
     "fit param E vary": {"fv_a": False, "fv_b": True},
     "fit param R value": {"fr_a": 16e-6, "fr_b": 5e-6},
+    # zero is a legal value of Poisson's ratio and differs from the
+    # default 0.5
+    "fit param nu value": {"fn_a": 0.0, "fn_b": 0.25},
 }
 # keys a version-1.7.8 key=value profile can hold
 LEGACY_KEYS = ["model_key", "preprocessing", "range_type", "range_x",
@@ -130,13 +133,18 @@ def store_histories(tier, rng):
         for combo in itertools.product([None, "fe_a", "fe_b"],
                                        [None, "fv_a", "fv_b"],
                                        [None, "fr_a"],
+                                       [None, "fn_a", "fn_b"],
                                        [None, "mk_para", "mk_cone"]):
             o = []
             for k, vid in zip(["fit param E value", "fit param E vary",
-                               "fit param R value", "model_key"], combo):
+                               "fit param R value", "fit param nu value",
+                               "model_key"], combo):
                 if vid:
                     o.append(("set", k, vid))
             o.append(("fitparams",))
+            # (reading the parameters does not change what is stored)
+            if combo[3]:
+                o.append(("get", "fit param nu value"))
             hists.append({"init": init, "ops": o})
     return hists
 
@@ -523,42 +531,57 @@ def run_batch(tmp):
     pf["rating regressor"] = "Extra Trees"
     res = tmpd / "results"
     res.mkdir()
-    rec = {"raised": "", "rows": [], "expected": [], "header": ""}
-    try:
-        import io
-        import contextlib
-        crating.fit_data.cache_clear()
-        with contextlib.redirect_stdout(io.StringIO()), \
-                warnings.catch_warnings():
-            warnings.simplefilter("ignore")
-            crating.fit_perform(data, res, profile_path=ppath)
-        lines = (res / "statistics.tsv").read_text().splitlines()
-        rec["header"] = lines[0]
-        rec["rows"] = [ln.split("\t") for ln in lines[1:]]
-    except BaseException as exc:
-        if isinstance(exc, (KeyboardInterrupt, SystemExit)):
-            raise
-        rec["raised"] = type(exc).__name__ + ": " + str(exc)[:120]
-    # independent expectation: fresh group, same profile
+    rec = {"raised": "", "rows": [], "expected": [], "header": "",
+           "rounds": 0}
+    import io
+    import contextlib
     import afmformats
-    for pp in afmformats.find_data(data, modality="force-distance"):
-        grp = nanite.IndentationGroup(pp)
-        for idnt in grp:
-            with warnings.catch_warnings():
+    crating.fit_data.cache_clear()
+    # several batch runs in ONE process over the same folder and profile
+    # file, the profile being edited in between (as the command line does
+    # in a session): every run reports the fits of the profile in effect
+    rounds = [{}, {"model_key": "hertz_cone"}, {"weight_cp": 0},
+              {"model_key": "hertz_para", "fit param E value": 250.0}]
+    for rno, change in enumerate(rounds):
+        for k, v in change.items():
+            pf[k] = v
+        resr = res / f"round{rno}"
+        resr.mkdir()
+        try:
+            with contextlib.redirect_stdout(io.StringIO()), \
+                    warnings.catch_warnings():
                 warnings.simplefilter("ignore")
-                idnt.apply_preprocessing(pf["preprocessing"],
-                                         pf["preprocessing_options"])
-                idnt.fit_model(model_key=pf["model_key"],
-                               params_initial=pf.get_fit_params(),
-                               range_type=pf["range_type"],
-                               range_x=pf["range_x"], segment=pf["segment"],
-                               weight_cp=pf["weight_cp"])
-                rating = idnt.rate_quality(
-                    training_set=pf["rating training set"],
-                    regressor=pf["rating regressor"])
-            rec["expected"].append([
-                str(idnt.path), str(idnt.enum),
-                str(idnt.fit_properties["params_fitted"]["E"].value),
-                str(round(rating, ndigits=1))])
+                crating.fit_perform(data, resr, profile_path=ppath)
+            lines = (resr / "statistics.tsv").read_text().splitlines()
+            rec["header"] = lines[0]
+            rec["rows"] += [[f"round{rno}"] + ln.split("\t")
+                            for ln in lines[1:]]
+        except BaseException as exc:
+            if isinstance(exc, (KeyboardInterrupt, SystemExit)):
+                raise
+            rec["raised"] = type(exc).__name__ + ": " + str(exc)[:120]
+        # independent expectation: fresh group, same profile
+        pfn = prof.Profile(path=ppath)
+        for pp in afmformats.find_data(data, modality="force-distance"):
+            grp = nanite.IndentationGroup(pp)
+            for idnt in grp:
+                with warnings.catch_warnings():
+                    warnings.simplefilter("ignore")
+                    idnt.apply_preprocessing(pfn["preprocessing"],
+                                             pfn["preprocessing_options"])
+                    idnt.fit_model(model_key=pfn["model_key"],
+                                   params_initial=pfn.get_fit_params(),
+                                   range_type=pfn["range_type"],
+                                   range_x=pfn["range_x"],
+                                   segment=pfn["segment"],
+                                   weight_cp=pfn["weight_cp"])
+                    rating = idnt.rate_quality(
+                        training_set=pfn["rating training set"],
+                        regressor=pfn["rating regressor"])
+                rec["expected"].append([
+                    f"round{rno}", str(idnt.path), str(idnt.enum),
+                    str(idnt.fit_properties["params_fitted"]["E"].value),
+                    str(round(rating, ndigits=1))])
+        rec["rounds"] += 1
     shutil.rmtree(tmpd, ignore_errors=True)
     return rec
